@@ -98,6 +98,12 @@ def gen_scenario(r):
     npre = r.pick([0, 0, 0, 1, 2]) if kind == 'connect' else 0
     pre_req = b''.join(('GET /pre%d-%s HTTP/1.1\r\nHost: %s\r\n\r\n' % (k, nonce, host)).encode() for k in range(npre))
     pre_res = b''.join(b'HTTP/1.1 200 OK\r\nX-Id: pre%d-%s\r\nContent-Length: 2\r\n\r\nok' % (k, nonce.encode()) for k in range(npre))
+    interim = b''
+    if kind == 'connect' and r.chance(0.15):
+        # the proxy sends an interim 100 Continue before its final answer: the request side keeps waiting for the final status
+        interim = r.pick([b'HTTP/1.1 100 Continue\r\n\r\n', b'HTTP/1.1 100 Continue\r\nX-Proxy: p\r\n\r\n']) * r.pick([1, 1, 2])
+        pre_res = pre_res + interim
+    sc['interim'] = len(interim)
     sc.update(npre=npre, pre_req_len=len(pre_req), pre_res_len=len(pre_res))
     sc.update(head=head, resp=resp, status_line=status_line, client_payload=client_payload, server_payload=server_payload, nfollow=len(follow_reqs))
     head = pre_req + head
@@ -279,7 +285,7 @@ def shard(args):
         sc, cfg, ops = meta[d['id']]
         out['n'] += 1
         out['distinct'].add(hashlib.sha1(repr(ops).encode('latin-1', 'replace')).digest()[:8])
-        cl = '%s/%d/%s/%s' % (sc['kind'], sc['status'], sc['payload'], sc['layout'])
+        cl = '%s/%d/%s/%s' % (sc['kind'] + ('+100' if sc.get('interim') else ''), sc['status'], sc['payload'], sc['layout'])
         out['classes'][cl] = out['classes'].get(cl, 0) + 1
         errs = judge(d, sc)
         txl = d.get('tx') or []
